@@ -6,17 +6,19 @@ import (
 
 // Spec describes how one property is decided.
 type Spec struct {
-	ID          string
-	Run         func(*Ctx)
-	Shards      int      // 0: default (one per core); 1: single process
-	Binary      string   // "": plain build; "race": -race build
-	Env         []string // extra environment for the workers
-	Rule        string   // how cases are generated / what counts as non-trivial
-	Assumptions []string
-	MinEvals    int64            // floor on monitored executions for a quick run (x4 for thorough)
-	MinCounters map[string]int64 // floors on specific event counters
-	Exhaustive  string
-	Post        func(rep *h.Report, tier string) // driver-side analysis over the merged report
+	ID             string
+	Run            func(*Ctx)
+	Shards         int      // 0: default (one per core); 1: single process
+	Binary         string   // "": plain build; "race": -race build
+	Env            []string // extra environment for the workers
+	Rule           string   // how cases are generated / what counts as non-trivial
+	Assumptions    []string
+	MinEvals       int64            // floor on monitored executions for a quick run (x4 for thorough)
+	MinCounters    map[string]int64 // floors on specific event counters
+	Exhaustive     string
+	Post           func(rep *h.Report, tier string)               // driver-side analysis over the merged report
+	Collect        func(runDir string, rep *h.Report, seed int64) // driver-side collection of artefacts the workers left in runDir
+	ShardsThorough int
 }
 
 var specs []*Spec
@@ -108,4 +110,35 @@ func init() {
 		Assumptions: append([]string{"non-termination is detected by a stall watchdog (no new case for 120 s) confirmed by a single-case replay under a 10-minute limit; a fired-but-unconfirmed watchdog is inconclusive"}, commonAssumptions...),
 		MinEvals:    20000000,
 		MinCounters: map[string]int64{"hostile_programs_run": 5000000, "out_of_range_offsets_that_must_be_reported": 500000, "hostile_offsets_near_maxint": 100000, "hostile_offsets_negative": 100000, "hostile_offsets_mid_token": 100000, "inputs_in_read_only_pages": 1000000}})
+}
+
+func init() {
+	register(&Spec{ID: "C14", Run: RunC14,
+		Rule:        "cases are call histories (W9): 20-200 calls over ONE Buffer mixing Valid, SkipValue, SkipValueFast, HandleArrayValues, HandleObjectValues on generated/faulty/truncated documents and nestings of depth 1..2,000 and 9,999..10,002, with handler programs decline / exact / mixed / error-at-k / garbage-offset-at-k / re-entrant (the handler calls back into any of the five functions with the very Buffer of the enclosing call, recursively to 4 levels); every call is executed a second time with no buffer and the two transcripts (results, errors, complete callback logs, nested calls) must be identical; distinct = histories; every history is non-trivial",
+		Assumptions: commonAssumptions, MinEvals: 300000,
+		MinCounters: map[string]int64{"calls_with_reentrant_sharing": 10000, "outcome_ok": 50000, "outcome_syntax-error": 20000, "outcome_handler-abort": 5000, "outcome_depth-limit": 300, "outcome_garbage-offset": 1000, "max_stack_buffer_len_seen": 10000}})
+	register(&Spec{ID: "C15", Run: RunC15,
+		Rule:        "cases are call histories: 20-70 ReadValue/ReadObject/ReadArray calls on ONE ValueReader over generated/faulty/truncated documents and nestings up to and beyond the depth limit; every result is compared with a brand-new reader's; up to 12 earlier container results are kept under watch with deep snapshots that are re-verified after every later call and after the harness scribbles over the latest result (overwrites elements, writes into spare capacity, appends, adds/deletes keys); distinct = histories; every history is non-trivial",
+		Assumptions: commonAssumptions, MinEvals: 400000,
+		MinCounters: map[string]int64{"snapshots_reverified": 1000000, "caller_modifications_of_latest_result": 20000, "outcome_error": 50000, "outcome_error-on-deep-document": 60, "outcome_ok": 100000}})
+	register(&Spec{ID: "C16", Run: RunC16,
+		Rule:        "inputs (W7 strings, surrogates, W3 documents, a twelfth of the W1 sweep, W5) are held in PROT_READ guard pages while every exported function and both traversals run (a store faults); string tokens additionally go through ReadStringBytes/UnescapeStringContent/StdLibCompatibleStringBytes with 35 destination shapes (len 0..17, spare capacity 0..2*need+5, random contents and random garbage in the spare capacity) and ReadString/DecodeString with 12 dirty scratch shapes; returned strings and trees are re-read after the harness overwrites the input copy, the scratch (full capacity) and reuses the reader; distinct by input hash; non-trivial = input contains a double quote",
+		Assumptions: append([]string{"write detection relies on mprotect(PROT_READ) + debug.SetPanicOnFault"}, commonAssumptions...),
+		MinEvals:    10000000,
+		MinCounters: map[string]int64{"inputs_in_read_only_pages": 100000, "append_semantics_calls": 2000000, "scratch_independence_calls": 500000, "returned_strings_rechecked_after_overwrites": 300000, "returned_trees_rechecked_after_overwrites": 100000}})
+	register(&Spec{ID: "C17", Run: RunC17,
+		Rule:        "EXHAUSTIVE: every 0-, 1- and 2-byte string and every 3-byte string with a lead byte >= 0x80 (8,454,401 strings); plus generated 4-byte boundary sequences and longer strings, generated value trees with invalid UTF-8 in strings and keys at every depth (argument snapshot compared, result scribbled to expose shared containers), and W3 documents decoded by ReadValue and compared with encoding/json when no keys collide; distinct by construction; non-trivial = not valid UTF-8 (strings), every tree, every compared document",
+		Assumptions: commonAssumptions, MinEvals: 10000000,
+		Exhaustive:  "all byte strings of length <= 2 and all 3-byte strings with lead byte >= 0x80 are enumerated completely in both tiers",
+		MinCounters: map[string]int64{"exhaustive_space_completed": 1, "invalid_utf8_replaced": 5000000, "valid_utf8_identity_checked": 50000, "trees_converted": 50000, "decoded_documents_compared_with_encoding_json": 10000}})
+}
+
+func init() {
+	register(&Spec{ID: "C18", Run: RunC18, Binary: "race", Shards: 3, ShardsThorough: 10,
+		Env:         []string{"GORACE=halt_on_error=0 exitcode=0 log_path=$RUNDIR/race"},
+		Collect:     func(runDir string, rep *h.Report, seed int64) { CollectRaceReports(runDir, rep, "C18", seed) },
+		Rule:        "each shard is one process built with -race at a different GOMAXPROCS (2, 8, 16, ...): 32 goroutines each run a seeded script of 1,500 (quick) / 12,000 (thorough) calls drawn from 30 operations covering the whole API, with goroutine-private Buffer/ValueReader/scratch/destination and SHARED inputs held in read-only pages; pass 1 has no harness synchronisation between calls, pass 2 records which functions were simultaneously active; every call's result hash is compared with the same script replayed sequentially; race reports are read from the detector's log; a case = one concurrent call; all are non-trivial",
+		Assumptions: append([]string{"the race detector only sees accesses that happen during the run; it is happens-before based, so it does not need a lucky interleaving to report an unsynchronised shared location that two goroutines touch"}, commonAssumptions...),
+		MinEvals:    200000,
+		MinCounters: map[string]int64{"concurrent_calls_pure_pass": 100000, "max_distinct_co_active_function_pairs_in_one_run": 100, "race_detector_log_files": 0}})
 }
